@@ -3,18 +3,64 @@ package main
 import (
 	"fmt"
 	"os"
+	"strconv"
+	"time"
+
+	"verifharness/internal/checks"
+	"verifharness/internal/engine"
 )
 
 func main() {
 	if len(os.Args) < 2 {
-		fmt.Fprintln(os.Stderr, "usage: verif <sweep|check|replay|factgen> ...")
+		fmt.Fprintln(os.Stderr, "usage: verif <check ID tier|sweep|replay FILE> ...")
 		os.Exit(2)
 	}
 	switch os.Args[1] {
 	case "sweep":
 		os.Exit(cmdSweep(os.Args[2:]))
+	case "replay":
+		if len(os.Args) < 3 {
+			fmt.Fprintln(os.Stderr, "usage: verif replay <file>")
+			os.Exit(2)
+		}
+		os.Exit(cmdReplay(os.Args[2]))
+	case "check":
+		if len(os.Args) < 4 {
+			fmt.Fprintln(os.Stderr, "usage: verif check <ID> <quick|thorough>")
+			os.Exit(2)
+		}
+		os.Exit(cmdCheck(os.Args[2], os.Args[3]))
 	default:
 		fmt.Fprintln(os.Stderr, "unknown command", os.Args[1])
 		os.Exit(2)
 	}
+}
+
+func cmdCheck(id, tier string) int {
+	if t := os.Getenv("VERIF_TIER"); t == "quick" || t == "thorough" {
+		tier = t
+	}
+	seed := int64(20260926)
+	if s := os.Getenv("VERIF_SEED"); s != "" {
+		if v, err := strconv.ParseInt(s, 10, 64); err == nil {
+			seed = v
+		}
+	}
+	ck := checks.Registry[id]
+	if ck == nil {
+		fmt.Fprintln(os.Stderr, "no check for", id)
+		return 2
+	}
+	c := engine.NewCtx(id, tier, seed)
+	ck.Run(c)
+	if err := c.WriteEvidence(); err != nil {
+		fmt.Fprintln(os.Stderr, "evidence:", err)
+		return 2
+	}
+	fmt.Printf("%s %s: evaluations=%d distinct=%d programs=%d theorems=%d/%d violations=%d known=%d wall=%.1fs\n",
+		id, tier, c.Evaluations, c.Distinct(), c.Programs, len(c.Discharged), len(c.Obligations), len(c.Violations), len(c.Known), time.Since(c.Start).Seconds())
+	if len(c.Violations) > 0 {
+		return 1
+	}
+	return 0
 }
